@@ -354,7 +354,9 @@ func (r *Raft) stateLoop() {
 			case t := <-r.taskCh:
 				r.executeTask(t)
 				if r.state == Follower && f.electionAborted {
-					f.resetTimer()
+					if yes, _ := f.canStartElection(); yes {
+						f.resetTimer()
+					}
 				}
 
 			case t := <-r.snapTakenCh:
